@@ -6,7 +6,7 @@ import pathspec
 import impl, oracle
 from impl import cminx
 
-NAMES = ['a', 'b', 'c', 'mod', 'x.y', 'd-e', 'aa', 'ab', 'ac', 'e1', 'e2', 'e3', 'Z', 'útf']
+NAMES = ['a', 'b', 'c', 'mod', 'x.y', 'd-e', 'aa', 'ab', 'ac', 'e1', 'e2', 'e3', 'Z', 'útf', 'tc.cmake.in', 'P.cmake', 'v1.2.x']
 EXTS = ['.cmake', '.cmake', '.cmake', '.cmake', '.CMake', '.CMAKE', '.txt', '', '.cmake.in', '.cmake~']
 DIRS = ['sub', 'deep', 'aa', 'ab', 'ac', 'build', 'x.d', 'cmake', 'T-1']
 PATTERNS = ['aa/', 'ab/', 'ac/', 'build', 'sub/', '*.txt', 'a.cmake', 'b.cmake', 'c.cmake', '**/deep/*.cmake', 'mod.*', 'x.d/',
@@ -133,7 +133,7 @@ def make_settings(st, outdir):
     return s
 
 
-def run_real(sb_dir, case, variant='v0', cwd_mode=None, loc='loc'):
+def run_real(sb_dir, case, variant='v0', cwd_mode=None, loc='loc', keep_inputs=False):
     """materialise the case under sb_dir/variant and run the real cminx.document; returns dict(files, stdout, status)"""
     # directory names of the harness must not be matchable by generated exclude patterns (patterns see absolute paths, K7):
     # e.g. a variant called 'alone' is excluded by the pattern 'a*'
@@ -149,7 +149,8 @@ def run_real(sb_dir, case, variant='v0', cwd_mode=None, loc='loc'):
     for k, inp in enumerate(inputs):
         parent = os.path.join(base, loc, 'i%d' % k)
         p = os.path.join(parent, inp['name'])
-        if inp['kind'] == 'dir': materialize(p, inp['children'])
+        if keep_inputs and os.path.exists(p): pass       # second run over the very same files (mtimes untouched)
+        elif inp['kind'] == 'dir': materialize(p, inp['children'])
         elif inp['kind'] == 'file':
             os.makedirs(parent, exist_ok=True)
             with open(p, 'wb') as f: f.write(inp['content'].encode('utf-8'))
